@@ -79,12 +79,12 @@ func findDefinitionTarget(journal *ast.Journal, pos protocol.Position) *definiti
 				}
 			}
 
-			if p.Amount != nil && p.Amount.Commodity.Symbol != "" {
-				if positionInRange(pos, p.Amount.Commodity.Range) {
+			for _, c := range postingCommodities(p) {
+				if positionInRange(pos, c.Range) {
 					return &definitionTarget{
 						context:     DefContextCommodity,
-						name:        p.Amount.Commodity.Symbol,
-						symbolRange: astRangeToProtocol(p.Amount.Commodity.Range),
+						name:        c.Symbol,
+						symbolRange: astRangeToProtocol(c.Range),
 					}
 				}
 			}
@@ -92,6 +92,22 @@ func findDefinitionTarget(journal *ast.Journal, pos protocol.Position) *definiti
 	}
 
 	return nil
+}
+
+// postingCommodities lists the commodities written on a posting line: those of the
+// amount, of the cost and of the balance assertion.
+func postingCommodities(p *ast.Posting) []ast.Commodity {
+	var out []ast.Commodity
+	if p.Amount != nil && p.Amount.Commodity.Symbol != "" {
+		out = append(out, p.Amount.Commodity)
+	}
+	if p.Cost != nil && p.Cost.Amount.Commodity.Symbol != "" {
+		out = append(out, p.Cost.Amount.Commodity)
+	}
+	if p.BalanceAssertion != nil && p.BalanceAssertion.Amount.Commodity.Symbol != "" {
+		out = append(out, p.BalanceAssertion.Amount.Commodity)
+	}
+	return out
 }
 
 func findDefinitionLocation(target *definitionTarget, resolved *include.ResolvedJournal, currentPath string, currentJournal *ast.Journal) *protocol.Location {
